@@ -1324,6 +1324,9 @@ FUNC_OF_CHECK = {
     "odp.slide": "odp_extractor.py::_extract_slide",
     "html.source": "html_extractor.py::read_html",
     "rtf.source": "rtf_extractor.py::read_rtf",
+    "pptx.shapes": "pptx_extractor.py::read_pptx",
+    "epub.tables": "epub_extractor.py::read_epub.iterate_tables",
+    "odp.tables": "odp_extractor.py::read_odp.iterate_tables",
     "epub.source": "epub_extractor.py::read_epub",
 }
 
